@@ -33,13 +33,24 @@ theorem C18_tie_regression_prefix_pairs :
 /-- F-18b repair: x/dogfood InitGenesis re-places the holds — the model's `rebuildHolds` flag is the regenerated one -/
 theorem C18_tie_holds_rebuilt : dogfoodInitRebuildsHolds = codePrefixes.rebuildHolds := by decide
 
-/-- collections exported by the modelled modules (no hold counts in delegation, no reverse key index in operator,
-    params only for mint and fee distribution) -/
+/-- F-18c repair: SetAllPrevConsKeys rebuilds the reverse lookup — the model's `rebuildPrevReverse` is the regenerated one -/
+theorem C18_tie_prev_reverse_rebuilt : operatorPrevKeysRebuildReverse = codePrefixes.rebuildPrevReverse := by decide
+
+/-- F-18h repair: val_set is read from x/dogfood's own validator store — the model's `exportStoredKeys` is the regenerated one -/
+theorem C18_tie_export_stored_validators : dogfoodExportUsesStoredValidators = codePrefixes.exportStoredKeys := by decide
+
+/-- F-18g repair: InitGenesis goes through setOperatorInfo with the genesis flag, which keeps an exported commission
+    update_time (operator info is not part of the Lean model: the JSON / store comparison of the differential run checks
+    the effect, this fact pins the code) -/
+theorem C18_tie_commission_time_kept : operatorGenesisKeepsCommissionTime = true := by decide
+
+/-- collections exported by the modelled modules (no hold counts in delegation — x/dogfood re-places them —, no reverse key index in operator —
+    rebuilt from current and previous keys —, params only for mint and fee distribution) -/
 theorem C18_tie_export_calls : genesisExportCalls = [
     ("assets", ["GetParams", "GetAllClientChainInfo", "GetAllStakingAssetsInfo", "AllDeposits", "AllOperatorAssets"]),
     ("delegation", ["GetAllAssociations", "AllDelegationStates", "AllStakerList", "AllUndelegations"]),
     ("operator", ["AllOperators", "GetAllOperatorConsKeyRecords", "GetAllOptedInfo", "GetAllAVSUSDValues", "GetAllOperatorUSDValues", "GetAllSlashStates", "GetAllPrevConsKeys", "GetAllOperatorKeyRemovals"]),
-    ("dogfood", ["GetDogfoodParams", "IterateBondedValidatorsByPower", "GetDogfoodParams", "GetAllOptOutsToFinish", "GetAllConsAddrsToPrune", "GetAllUndelegationsToMature", "GetLastTotalPower"]),
+    ("dogfood", ["GetDogfoodParams", "GetAllExocoreValidators", "GetDogfoodParams", "GetAllOptOutsToFinish", "GetAllConsAddrsToPrune", "GetAllUndelegationsToMature", "GetLastTotalPower"]),
     ("epochs", ["AllEpochInfos"]),
     ("oracle", ["GetParams", "GetAllPrices", "GetValidatorUpdateBlock", "GetIndexRecentParams", "GetIndexRecentMsg", "GetAllRecentMsg", "GetAllRecentParams", "GetAllStakerInfosAssets", "GetAllStakerListAssets"]),
     ("exomint", ["GetParams"]),
@@ -48,7 +59,7 @@ theorem C18_tie_export_calls : genesisExportCalls = [
 theorem C18_tie_init_calls : genesisInitCalls = [
     ("assets", ["SetParams", "SetClientChainInfo", "SetStakingAssetInfo", "UpdateStakerAssetState", "UpdateOperatorAssetState"]),
     ("delegation", ["AssociateOperatorWithStaker", "SetAllDelegationStates", "SetAllStakerList", "SetUndelegationRecords"]),
-    ("operator", ["SetOperatorInfo", "setOperatorConsKeyForChainIDUnchecked", "SetAllOptedInfo", "SetAllOperatorUSDValues", "SetAllAVSUSDValues", "SetAllSlashStates", "SetAllPrevConsKeys", "SetAllOperatorKeyRemovals"]),
+    ("operator", ["setOperatorInfo", "setOperatorConsKeyForChainIDUnchecked", "SetAllOptedInfo", "SetAllOperatorUSDValues", "SetAllAVSUSDValues", "SetAllSlashStates", "SetAllPrevConsKeys", "SetAllOperatorKeyRemovals"]),
     ("dogfood", ["SetParams", "AppendOptOutToFinish", "SetOperatorOptOutFinishEpoch", "AppendConsensusAddrToPrune", "AppendUndelegationToMature", "SetUndelegationMaturityEpoch", "SetLastTotalPower", "ApplyValidatorChanges"]),
     ("epochs", ["AddEpochInfo"]),
     ("oracle", ["SetPrices", "SetValidatorUpdateBlock", "SetIndexRecentParams", "SetIndexRecentMsg", "SetRecentMsg", "SetRecentParams", "SetStakerList", "SetStakerInfos", "SetParams"]),
